@@ -243,13 +243,18 @@ def _symbolic(*xs):
     return any(isinstance(x, SymStr) for x in xs)
 
 
-def finditer(pattern, s, flags=0):
+def finditer(pattern, s, flags=0, _pos=0, _endpos=None):
+    """_pos/_endpos: the optional arguments of a COMPILED pattern's methods (the search starts at _pos, the string ends at
+    _endpos; as in `re`, `^` still refers to the real start of the string / of a line)"""
     if not _symbolic(s):
-        return (pattern.real if isinstance(pattern, _Compiled) else _re.compile(pattern, flags)).finditer(s)
+        real = pattern.real if isinstance(pattern, _Compiled) else _re.compile(pattern, flags)
+        return real.finditer(s, _pos, len(s) if _endpos is None else _endpos)
+    if _endpos is not None:
+        s = s[:_endpos]
     items, fl = _items(pattern, flags)
     mt = _Matcher(s, fl)
     out = []
-    pos = 0
+    pos = max(0, int(_pos))
     n = len(s.cs)
     while pos <= n:
         r = _match_at(mt, items, pos)
@@ -262,10 +267,11 @@ def finditer(pattern, s, flags=0):
     return iter(out)
 
 
-def search(pattern, s, flags=0):
+def search(pattern, s, flags=0, _pos=0, _endpos=None):
     if not _symbolic(s):
-        return (pattern.real if isinstance(pattern, _Compiled) else _re.compile(pattern, flags)).search(s)
-    for m in finditer(pattern, s, flags):
+        real = pattern.real if isinstance(pattern, _Compiled) else _re.compile(pattern, flags)
+        return real.search(s, _pos, len(s) if _endpos is None else _endpos)
+    for m in finditer(pattern, s, flags, _pos, _endpos):
         return m
     return None
 
@@ -316,11 +322,11 @@ class _Compiled:
         self.flags = flags | p.state.flags
         self.pattern = pattern
 
-    def finditer(self, s):
-        return finditer(self, s)
+    def finditer(self, s, pos=0, endpos=None):
+        return finditer(self, s, 0, pos, endpos)
 
-    def search(self, s):
-        return search(self, s)
+    def search(self, s, pos=0, endpos=None):
+        return search(self, s, 0, pos, endpos)
 
     def match(self, s):
         return match(self, s)
@@ -343,10 +349,20 @@ def install(mod, rexmod=None):
     """Point a library module at this matcher: its name `re`, and every *precompiled* pattern it keeps as a module
     global (compiled by the real `re` at import time, before any shim could be in place)."""
     mod.re = rexmod or module()
+    def wrap(p):
+        return _Compiled(p.pattern, p.flags & ~_re.UNICODE)
+
     for k, v in list(vars(mod).items()):
         if isinstance(v, _re.Pattern):
             _ORIG[(mod.__name__, k)] = v
-            setattr(mod, k, _Compiled(v.pattern, v.flags & ~_re.UNICODE))
+            setattr(mod, k, wrap(v))
+        elif isinstance(v, (list, tuple)) and v and all(isinstance(x, _re.Pattern) for x in v):
+            # a module-level collection of precompiled patterns
+            _ORIG[(mod.__name__, k)] = v
+            setattr(mod, k, type(v)(wrap(x) for x in v))
+        elif isinstance(v, dict) and v and all(isinstance(x, _re.Pattern) for x in v.values()):
+            _ORIG[(mod.__name__, k)] = v
+            setattr(mod, k, {kk: wrap(x) for kk, x in v.items()})
 
 
 def uninstall(mod):
